@@ -9,6 +9,7 @@ import (
 	"bufio"
 	"context"
 	"encoding/json"
+	"errors"
 	"fmt"
 	"io"
 	"math/rand"
@@ -76,14 +77,18 @@ type launchCase struct {
 	Listen   bool              `json:"listen"`
 	// "dies later, then Stop with nothing in between": after the plugins marked dielater / hanglater have lost
 	// their connection the driver sends NO event or request; it waits until the runtime has noticed and calls Stop
-	Silent    bool `json:"silent_stop"`
-	PreEvents bool `json:"pre_events"` // silent cases: two events are sent before the connections are lost
-	Noticed   bool `json:"noticed_before_stop"`
-	StartOK  bool              `json:"start_ok"`
-	StartErr string            `json:"start_err"`
-	Obs      []pluginObs       `json:"obs"`
-	Events   []eventObs        `json:"events"`
-	WallMs   int64             `json:"wall_ms"`
+	// behaviour of the runtime's SyncFn: "" calls the synchronisation callback and returns nil; "before" returns an
+	// error WITHOUT calling it; "after" calls it and then returns an error.  Start must fail as a whole in the last
+	// two, and every plugin launched by the attempt must be gone from the process table when it returns.
+	SyncFn    string      `json:"sync_fn"`
+	Silent    bool        `json:"silent_stop"`
+	PreEvents bool        `json:"pre_events"` // silent cases: two events are sent before the connections are lost
+	Noticed   bool        `json:"noticed_before_stop"`
+	StartOK   bool        `json:"start_ok"`
+	StartErr  string      `json:"start_err"`
+	Obs       []pluginObs `json:"obs"`
+	Events    []eventObs  `json:"events"`
+	WallMs    int64       `json:"wall_ms"`
 }
 
 var (
@@ -317,6 +322,15 @@ func (e *launchEnv) run(lc *launchCase) error {
 	pods := []*api.PodSandbox{{Id: "pod0", Name: "pod0", Namespace: "default"}}
 	ctrs := []*api.Container{{Id: "ctr0", PodSandboxId: "pod0", Name: "ctr0"}}
 	syncFn := func(ctx context.Context, cb adaptation.SyncCB) error {
+		switch lc.SyncFn {
+		case "before":
+			return errors.New("verif-runtime: cannot list pods (failing before the NRI callback)")
+		case "after":
+			if _, err := cb(ctx, pods, ctrs); err != nil {
+				return err
+			}
+			return errors.New("verif-runtime: failing after the NRI callback")
+		}
 		_, err := cb(ctx, pods, ctrs)
 		return err
 	}
@@ -376,6 +390,9 @@ func (e *launchEnv) run(lc *launchCase) error {
 		o := lc.Outcomes[po.File]
 		if lc.StartOK && active(o) {
 			po.AfterStart = stateCode(procState(po.Pid))
+		} else if !lc.StartOK {
+			// Start failed as a whole: the clean-up (Kill + Wait) is synchronous, the entry must be gone
+			po.AfterStart = stateCode(e.waitGone(po.Pid, 5*time.Second))
 		} else {
 			po.AfterStart = stateCode(waitNotRunning(po.Pid, 3*time.Second))
 		}
@@ -556,9 +573,17 @@ func oracle(lc *launchCase) []string {
 		}
 		ds = append(ds, disc{en.Name, idx, base, cfg})
 	}
-	if startOK != lc.StartOK {
+	syncFails := lc.SyncFn != ""
+	if startOK && syncFails != !lc.StartOK {
+		bad = append(bad, fmt.Sprintf("start: the runtime's SyncFn fails=%v, observed ok=%v (%s)", syncFails, lc.StartOK, lc.StartErr))
+		return bad
+	}
+	if !startOK && lc.StartOK {
 		bad = append(bad, fmt.Sprintf("start: expected ok=%v observed ok=%v (%s)", startOK, lc.StartOK, lc.StartErr))
 		return bad
+	}
+	if syncFails && len(lc.Events) != 0 {
+		bad = append(bad, "events recorded although Start failed")
 	}
 	obs := map[string]pluginObs{}
 	for _, po := range lc.Obs {
@@ -607,7 +632,13 @@ func oracle(lc *launchCase) []string {
 		} else if po.ConfigSeen {
 			bad = append(bad, d.file+": configured although it never registered")
 		}
-		if active(o) {
+		if syncFails {
+			if po.AfterStart == 2 {
+				bad = append(bad, d.file+": Start failed as a whole but the launched plugin is still running")
+			} else if po.AfterStart != 0 {
+				bad = append(bad, d.file+": Start failed as a whole, the launched plugin is dead but was never waited for (zombie)")
+			}
+		} else if active(o) {
 			act = append(act, d)
 			if po.AfterStart != 2 {
 				bad = append(bad, d.file+": healthy plugin not running after Start")
@@ -716,8 +747,8 @@ func (lc *launchCase) coq() string {
 	for _, ev := range lc.Events {
 		evs = append(evs, fmt.Sprintf("{| eo_after_death := %s; eo_err := %s; eo_order := %s |}", coqfmt.Bool(ev.AfterDeath), coqfmt.Bool(ev.Err != ""), coqfmt.StrList(ev.Order)))
 	}
-	return fmt.Sprintf("{| lc_entries := %s; lc_dropins := %s; lc_outcomes := %s; lc_start_ok := %s; lc_obs := %s; lc_events := %s |}",
-		coqfmt.List(ents), coqfmt.List(drops), coqfmt.List(outs), coqfmt.Bool(lc.StartOK), coqfmt.List(obs), coqfmt.List(evs))
+	return fmt.Sprintf("{| lc_entries := %s; lc_dropins := %s; lc_outcomes := %s; lc_sync_calls := %s; lc_sync_fails := %s; lc_start_ok := %s; lc_obs := %s; lc_events := %s |}",
+		coqfmt.List(ents), coqfmt.List(drops), coqfmt.List(outs), coqfmt.Bool(lc.SyncFn != "before"), coqfmt.Bool(lc.SyncFn != ""), coqfmt.Bool(lc.StartOK), coqfmt.List(obs), coqfmt.List(evs))
 }
 
 // ---------------------------------------------------------------- generators
@@ -809,7 +840,8 @@ func genDiscovery(r *rand.Rand, i int) *launchCase {
 	return lc
 }
 
-// dropins: every pair of states of (idx-name.conf, name.conf), i%9 selects the pair of the first plugin
+// dropins: every pair of states of (idx-name.conf, name.conf) — missing, readable with content, present but
+// unreadable, present and EMPTY —, i%16 selects the pair of the first plugin
 func genDropins(r *rand.Rand, i int) *launchCase {
 	lc := newCase("dropins", i, r)
 	ns := nameSet{}
@@ -822,6 +854,8 @@ func genDropins(r *rand.Rand, i int) *launchCase {
 		seen[file] = true
 		if state == 1 {
 			lc.Dropins = append(lc.Dropins, dropin{File: file, Kind: "content", Content: confStrings[r.Intn(len(confStrings))] + fmt.Sprintf(" #%s", file)})
+		} else if state == 3 {
+			lc.Dropins = append(lc.Dropins, dropin{File: file, Kind: "content", Content: ""}) // exists, zero bytes
 		} else {
 			lc.Dropins = append(lc.Dropins, dropin{File: file, Kind: "dir"})
 		}
@@ -840,10 +874,10 @@ func genDropins(r *rand.Rand, i int) *launchCase {
 		idx, base, _ := wellFormed(name)
 		var s1, s2 int
 		if k == 0 {
-			s1, s2 = (i%9)/3, (i%9)%3
+			s1, s2 = (i%16)/4, (i%16)%4
 		} else {
 			// mostly readable or missing; unreadable makes Start fail as a whole
-			s1, s2 = []int{0, 0, 1, 1, 1, 2}[r.Intn(6)], []int{0, 1, 1, 1}[r.Intn(4)]
+			s1, s2 = []int{0, 0, 1, 1, 1, 2, 3, 3}[r.Intn(8)], []int{0, 1, 1, 1, 3}[r.Intn(5)]
 		}
 		addDrop(idx+"-"+base+".conf", s1)
 		addDrop(base+".conf", s2)
@@ -942,6 +976,33 @@ func genSilent(r *rand.Rand, i int) *launchCase {
 	return lc
 }
 
+// startfail: one to three plugins that launch, register and are configured (some of them refusing Configure or
+// Synchronize, or exiting at once), and a runtime whose SyncFn fails — two times in three before it ever calls the
+// NRI callback.  Start fails as a whole; nothing launched by the attempt may survive it.
+func genStartFail(r *rand.Rand, i int) *launchCase {
+	lc := newCase("startfail", i, r)
+	lc.SyncFn = []string{"before", "after", "before"}[i%3]
+	ns := nameSet{}
+	for k := 1 + r.Intn(3); k > 0; k-- {
+		lc.add(ns.fresh(r, func() string { return goodName(r) }), "file", execModes[r.Intn(len(execModes))])
+	}
+	if r.Intn(2) == 0 {
+		b := []string{probe.BSyncFail, probe.BCfgErr, probe.BExit, probe.BDieLater, probe.BHangLater, probe.BCloseFd}[r.Intn(6)]
+		lc.add(ns.fresh(r, func() string { return behName(r, b) }), "file", 0o755)
+	}
+	if r.Intn(3) == 0 {
+		lc.add(ns.fresh(r, func() string { return goodName(r) }), "junk", 0o755)
+	}
+	if r.Intn(2) == 0 {
+		name := lc.Entries[r.Intn(len(lc.Entries))].Name
+		if _, base, ok := wellFormed(name); ok {
+			lc.Dropins = append(lc.Dropins, dropin{File: base + ".conf", Kind: "content", Content: "startfail: " + name})
+		}
+	}
+	shuffleEntries(r, lc)
+	return lc
+}
+
 // ---------------------------------------------------------------- corpus
 
 // loadCorpus reads <verif>/corpus/C18/*.json: directory contents replayed before the generated streams.
@@ -960,12 +1021,13 @@ func loadCorpus() ([]*launchCase, error) {
 			Dropins []dropin `json:"dropins"`
 			Silent  bool     `json:"silent_stop"`
 			PreEv   bool     `json:"pre_events"`
+			SyncFn  string   `json:"sync_fn"`
 		}
 		if err := json.Unmarshal(b, &in); err != nil {
 			return nil, fmt.Errorf("%s: %w", f, err)
 		}
 		lc := &launchCase{Stream: "corpus", ID: in.ID, Outcomes: map[string]string{}, Entries: []entry{}, Dropins: in.Dropins, Obs: []pluginObs{}, Events: []eventObs{},
-			Silent: in.Silent, PreEvents: in.PreEv}
+			Silent: in.Silent, PreEvents: in.PreEv, SyncFn: in.SyncFn}
 		if lc.Dropins == nil {
 			lc.Dropins = []dropin{}
 		}
@@ -1026,6 +1088,7 @@ func driveLaunch(c *hx.Ctx) error {
 		{"faults", c.Pick(18, 240), func(r *rand.Rand, i int) *launchCase { return genFaults(r, i, i < slow) }},
 		{"order", c.Pick(10, 150), genOrder},
 		{"stopsilent", c.Pick(8, 120), genSilent},
+		{"startfail", c.Pick(6, 90), genStartFail},
 	}
 	corpus, err := loadCorpus()
 	if err != nil {
@@ -1067,8 +1130,18 @@ func driveLaunch(c *hx.Ctx) error {
 				if lc.Noticed {
 					c.Count("c18.silent_stop.noticed_before_stop", 1)
 				}
+			} else if lc.SyncFn != "" {
+				// non-trivial: processes existed when the runtime's SyncFn failed
+				c.Eval("launch/"+s.name+"/"+fmt.Sprint(lc.Entries, lc.Dropins, lc.SyncFn), launched > 0 && !lc.StartOK)
+				c.Count("c18.syncfn_fails."+lc.SyncFn, 1)
+				c.Count("c18.syncfn_fails.launched", launched)
 			} else {
 				c.Eval("launch/"+s.name+"/"+fmt.Sprint(lc.Entries, lc.Dropins), launched > 0 || !lc.StartOK)
+			}
+			for _, d := range lc.Dropins {
+				if d.Kind == "content" && d.Content == "" {
+					c.Count("c18.dropin.empty", 1)
+				}
 			}
 			c.Count("c18.cases."+s.name, 1)
 			c.Count("c18.entries", len(lc.Entries))
@@ -1092,7 +1165,7 @@ func driveLaunch(c *hx.Ctx) error {
 				c.Count("c18.start.failed", 1)
 			}
 			if s.name == "dropins" {
-				c.Count(fmt.Sprintf("c18.dropin_pair.%d%d", (i%9)/3, (i%9)%3), 1)
+				c.Count(fmt.Sprintf("c18.dropin_pair.%d%d", (i%16)/4, (i%16)%4), 1)
 			}
 			if len(bad) > 0 {
 				failing++
@@ -1106,11 +1179,15 @@ func driveLaunch(c *hx.Ctx) error {
 	if c.Stats.Distribution["c18.launched"] == 0 || c.Stats.Distribution["c18.start.failed"] == 0 {
 		c.HarnessError("launch streams missed their target shape: %v", c.Stats.Distribution)
 	}
+	if c.Stats.Distribution["c18.syncfn_fails.before"] == 0 || c.Stats.Distribution["c18.syncfn_fails.after"] == 0 ||
+		c.Stats.Distribution["c18.syncfn_fails.launched"] == 0 || c.Stats.Distribution["c18.dropin_pair.31"] == 0 {
+		c.HarnessError("start-failure / empty drop-in cases missed their target shape: %v", c.Stats.Distribution)
+	}
 	if n := c.Stats.Distribution["c18.silent_stop.cases"]; n == 0 || 2*c.Stats.Distribution["c18.silent_stop.noticed_before_stop"] < n {
 		c.HarnessError("silent-stop cases missed their target shape (Stop after the runtime has noticed a lost connection, no event in between): %v", c.Stats.Distribution)
 	}
 	c.Stats.Extra = map[string]interface{}{"probe_build_ms": buildMs, "cases": total, "cases_failing_go_oracle": failing,
 		"observed_only": "launch-once, environment, descriptor inheritance (/proc/self/fd of the child), kill and reap (/proc/<pid>/stat) are operating-system behaviour observed on the implementation; they are not proved"}
-	c.Stats.Rule = "generated plugin directories (probe copies with every execute-bit pattern, non-executables, sub-directories, symbolic links, non-binaries, malformed names), drop-in directories (all 9 state pairs of idx-name.conf x name.conf), failure modes chosen by the probe's file name (exits at once, never registers, closes its socket, Configure fails, Synchronize fails, exits later, closes its connection later and keeps running) started by a real Adaptation; after the later deaths either three more events are sent (the dead plugins are dropped, killed and reaped) or - stream stopsilent and two corpus cases - NO event or request: the driver waits until the runtime has closed its end of the lost connections (its own descriptor table) and calls Stop; after Stop every launched pid must be gone from the process table (no live process, no zombie child); a case is non-trivial when at least one process was launched or Start failed on a malformed name / unreadable drop-in"
+	c.Stats.Rule = "generated plugin directories (probe copies with every execute-bit pattern, non-executables, sub-directories, symbolic links, non-binaries, malformed names), drop-in directories (all 16 state pairs of idx-name.conf x name.conf over missing / content / unreadable / present but empty), failure modes chosen by the probe's file name (exits at once, never registers, closes its socket, Configure fails, Synchronize fails, exits later, closes its connection later and keeps running) started by a real Adaptation; after the later deaths either three more events are sent (the dead plugins are dropped, killed and reaped) or - stream stopsilent and two corpus cases - NO event or request: the driver waits until the runtime has closed its end of the lost connections (its own descriptor table) and calls Stop; stream startfail and two corpus cases: the runtime's SyncFn returns an error before or after calling the NRI callback, Start must fail and every process launched by the attempt must be gone when it returns; after Stop every launched pid must be gone from the process table (no live process, no zombie child); a case is non-trivial when at least one process was launched or Start failed on a malformed name / unreadable drop-in"
 	return nil
 }
